@@ -282,7 +282,9 @@ func (w *World) functionVCsT(fn *ssa.Function, prop string, prove map[string]boo
 					env.hypInst = append(env.hypInst, sm.K, "(+ "+sm.K+" 1)")
 				}
 			}
+			baseInst := append([]Term{}, env.hypInst...)
 			for _, cl := range postClauses {
+				env.hypInst = append(append([]Term{}, baseInst...), e.witnessesFor(cl.using)...)
 				env.skNext = 0
 				t := env.trGoal(cl.expr)
 				if env.err != "" {
@@ -291,7 +293,7 @@ func (w *World) functionVCsT(fn *ssa.Function, prop string, prove map[string]boo
 					continue
 				}
 				pvc := w.mkVC(g, fmt.Sprintf("%s.post[%s]/%s", key, tagLabel(cl, prove, prop), clauseLabel(cl, cl.ord)), prop, "post", key, cl.src,
-					[]string{"(assert " + returned + ")", "(assert (not " + t.t + "))"}, w.pos(fn.Pos()), e.replaySpec())
+					append(g.groupLines(cl.using, false), "(assert "+returned+")", "(assert (not "+t.t+"))"), w.pos(fn.Pos()), e.replaySpec())
 				if cl.expr.op == "binary" && cl.expr.name == "==>" && len(e.rets) > 1 {
 					env.skNext = 0
 					saved := env.instAt
@@ -300,7 +302,7 @@ func (w *World) functionVCsT(fn *ssa.Function, prop string, prove map[string]boo
 					env.instAt = saved
 					concl := env.trGoal(cl.expr.args[1])
 					if env.err == "" {
-						pvc.StageBase = g.script([]string{"(assert " + returned + ")"})
+						pvc.StageBase = g.script(append(g.groupLines(cl.using, false), "(assert "+returned+")"))
 						pvc.StageHyp, pvc.StageGoal = hyp.t, concl.t
 						for _, r := range e.rets {
 							pvc.StageCands = append(pvc.StageCands, r.reach)
@@ -317,7 +319,7 @@ func (w *World) functionVCsT(fn *ssa.Function, prop string, prove map[string]boo
 						kind = "safe." + kind
 					}
 					vcs = append(vcs, w.mkVC(g, ob.Name, prop, kind, key, "",
-						[]string{"(assert " + ob.Cond + ")", "(assert (not " + ob.Goal + "))"}, w.pos(ob.Pos), e.replaySpec()))
+						append(g.groupLines(ob.Groups, false), "(assert "+ob.Cond+")", "(assert (not "+ob.Goal+"))"), w.pos(ob.Pos), e.replaySpec()))
 				}
 			}
 			if safe {
@@ -328,7 +330,7 @@ func (w *World) functionVCsT(fn *ssa.Function, prop string, prove map[string]boo
 			}
 			// vacuity canary: precondition + some return reachable
 			vcs = append(vcs, func() VC {
-				vc := w.mkVC(g, key+".vacuity", prop, "vacuity", key, "", []string{"(assert " + returned + ")"}, w.pos(fn.Pos()), nil)
+				vc := w.mkVC(g, key+".vacuity", prop, "vacuity", key, "", append(g.groupLines(nil, true), "(assert "+returned+")"), w.pos(fn.Pos()), nil)
 				vc.ExpectSat = true
 				return vc
 			}())
